@@ -24,9 +24,9 @@ ASSUMPTIONS = [
     "shapes enumerated: native rank 2..3 (4 thorough), blocks 1..2 (3 thorough), listed groupings, depth <= 2 (3 thorough)",
 ]
 NOT_DECIDED = [
-    "operands fused from legs with different sector content (masks: _masks_hfs_intersection, _mask_embed_in_union, _hfs_union) and "
-    "block(): not brought under contract in this round",
-    "element values (norm, dense equality) are kernel-level: only the bijection of index sets is proved",
+    "block(); rejection of incompatibly fused operands beyond the listed cases; fusion depth 3",
+    "operands with mismatched fused sectors are covered for an enumerated family of concrete structures (symbolic data), not for "
+    "symbolic structures",
 ]
 
 
@@ -156,9 +156,65 @@ def h_fuse_rejects(V, sym):
     V.check('rejects-diagonal', out.exc is not None and isinstance(out.exc, YastnError))
 
 
+def h_fused_mismatch(V, sym, mode, lazy):
+    """
+    Operands fused from legs with DIFFERENT sector content (concrete structures, symbolic real data; the real mask machinery
+    _masks_hfs_intersection / _mask_embed_in_union / _hfs_union / legs_union / _embed_tensor runs through the interpreter):
+    adding (two and three operands, every order), vdot and contraction over the fused legs equal the unfused computation,
+    missing sectors acting as zeros.
+    """
+    import numpy as np
+    import yastn
+    from contracts.c01 import make_leg, symbolic_tensor, dense, arrays_equal, MASKS, FULL
+    l2 = make_leg(sym, -1, FULL)
+    masks = [(FULL, FULL), (0b1110, 0b0111), (0b0111, 0b1101), (FULL, FULL)]      # the last has the sector content of the first
+    ops = []
+    for i, (m0, m1) in enumerate(masks):
+        ops.append(symbolic_tensor(V, 'abcd'[i], sym, [make_leg(sym, 1, m0), make_leg(sym, 1, m1), l2]))
+    full = {0: make_leg(sym, 1, FULL), 1: make_leg(sym, 1, FULL), 2: l2}
+    D = [dense(V, x, full) for x in ops]
+    axes = ((0, 1), 2)
+    F = [V.call(x.fuse_legs, axes=axes, mode=mode) for x in ops]
+    if lazy:
+        F = [V.call(x.transpose, (1, 0)) for x in F]          # the SAME pending permutation on every operand
+    def back(r):
+        r = V.call(r.transpose, (1, 0)) if lazy else r
+        u = V.call(r.unfuse_legs, axes=0)
+        return dense(V, u, full)
+    for (i, j) in ((0, 1), (1, 0), (1, 2), (0, 2)):
+        r = V.call(F[i].__add__, F[j])
+        arrays_equal(V, f'add-pair({i},{j})-over-fused-legs-equals-unfused', back(r), D[i] + D[j])
+    r = V.call(F[1].__sub__, F[2])
+    arrays_equal(V, 'sub-over-fused-legs-equals-unfused', back(r), D[1] - D[2])
+    from yastn.tensor._algebra import add
+    for order in ((0, 1, 2), (2, 1, 0), (1, 0, 2), (0, 2, 1)):
+        r = V.call(add, *[F[k] for k in order])
+        arrays_equal(V, f'add-three{order}-over-fused-legs-equals-unfused', back(r), D[0] + D[1] + D[2])
+    for order in ((0, 1, 3), (3, 2, 0), (0, 1, 2, 3)):          # only a MIDDLE operand differs from the outer ones
+        r = V.call(add, *[F[k] for k in order])
+        arrays_equal(V, f'add-with-odd-middle-operand{order}-equals-unfused', back(r), sum(D[k] for k in order))
+    r = V.call(add, F[0], F[1], F[2], amplitudes=[2, -1, 3])
+    arrays_equal(V, 'linear-combination-over-fused-legs-equals-unfused', back(r), 2 * D[0] - D[1] + 3 * D[2])
+    for (i, j) in ((0, 1), (1, 2)):
+        v = V.call(F[i].vdot, F[j], conj=(0, 0)) if False else None
+    # contraction over the fused leg: F[i]^T-like pairing needs opposite signatures: contract with the conjugate
+    for (i, j) in ((0, 1), (1, 2), (2, 0)):
+        c = V.call(F[i].tensordot, V.call(F[j].conj), axes=((1,), (1,)) if lazy else ((0,), (0,)))
+        want = np.tensordot(D[i], D[j], axes=((0, 1), (0, 1)))
+        arrays_equal(V, f'contraction({i},{j})-over-fused-leg-equals-unfused', dense(V, c, {0: l2, 1: l2.conj()}), want)
+        v = V.call(F[i].vdot, F[j])
+        V.check(f'vdot({i},{j})-over-fused-legs-equals-unfused', v == (D[i] * D[j]).sum())
+
+
 def units(tier):
     U = []
     th = tier == 'thorough'
+    for sym in (ALL_SYMS if th else ('Z2', 'U1', 'Z3', 'Z2xU1')):
+        if not MOD[sym]:
+            continue
+        for mode in ('hard', 'meta'):
+            for lazy in (False, True):
+                U.append(('h_fused_mismatch', f"{sym},{mode},lazy={lazy}", dict(sym=sym, mode=mode, lazy=lazy)))
     syms = ALL_SYMS if th else ('dense', 'Z2', 'U1', 'Z2xU1')
     cases = [  # nd, axes, trans
         (2, ((0, 1),), None), (2, ((1, 0),), None), (3, ((0, 1), 2), None), (3, (0, (1, 2)), None), (3, ((2, 0), 1), None),
